@@ -137,7 +137,6 @@ def check(chk, repo, tier):
                     chk, f"python:{modname.split('.')[-1]}.{st.name}", st,
                     mod.rel)
     chk.unit("broad exception handlers examined", n_sw)
-    chk.floor("broad exception handlers examined", n_sw, 3)
 
     stray_stopiteration(chk, repo)
 
